@@ -90,6 +90,9 @@ def hyp_settings(ctx, max_examples, **kw):
 def run_hypothesis(ctx, test, max_examples, **kw):
     """runs a Hypothesis test function with this shard's derived seed; records a shrunk Failure"""
     from hypothesis import seed
+    import hypothesis.internal.conjecture.engine as _eng
+    # a wall-clock cap on *shrinking* only: it never decides pass/fail, it only bounds how minimal the replay is
+    _eng.MAX_SHRINKING_SECONDS = 45 if ctx.tier == "quick" else 240
     t = seed(ctx.hseed)(hyp_settings(ctx, max_examples, **kw)(test))
     try:
         t()
@@ -108,6 +111,12 @@ def _shard_entry(args):
     modname, prop, tier, seed, shard, nshards, known = args
     mod = importlib.import_module(modname)
     ctx = Ctx(prop, tier, seed, shard, nshards, known)
+    try:
+        import resource
+        soft, hard = resource.getrlimit(resource.RLIMIT_AS)
+        resource.setrlimit(resource.RLIMIT_AS, (4 << 30, hard))   # generator/oracle side only; workers lift it again
+    except Exception:
+        pass
     try:
         mod.shard_main(ctx)
     except Exception:
